@@ -44,6 +44,14 @@ def run(chk, repo, tier):
         bayer_tiling_rule(chk, repo, 'C16-i')
     # ------------------------------------------------------------ C16-a / b
     from .extra_rules import sample_order_rule, bayer_string_rule
+    # an efficiency curve is a Spectrum without a value unit: sampling it in another wavelength unit converts the wavelengths
+    # and leaves the efficiencies alone (C14-c decides Spectrum.to)
+    from . import c14 as _c14
+    from .common import Remap as _Remap16
+    from ..resilient import run_nested as _run_nested16
+    nd16 = list(chk.not_decided)
+    _run_nested16(_c14, _Remap16(chk, {'C14-c': 'C16-b'}), repo, tier)
+    chk.not_decided[:] = nd16
     sample_order_rule(chk, repo, 'C16-b')
     bayer_string_rule(chk, repo, 'C16-i')
     # the efficiency look-up (qe_asarray or whatever does its job) is evaluated with the function
